@@ -119,6 +119,19 @@ def mentions(z, consts):
     return False
 
 
+class SeqRange(SRange):
+    """adapter: iterate the elements of a symbolic-length list"""
+    def __init__(self, seq):
+        super().__init__(0, seq.length, 1)
+        self.seq = seq
+
+    def item(self, k):
+        return self.seq.item(k)
+
+    def length(self):
+        return self.seq.length
+
+
 class LoopVar:
     def __init__(self, z, n, label):
         self.z = z          # z3 Int constant: the generic ordinal 0 <= z < n
@@ -208,6 +221,27 @@ class IndependentWrites:
         self.witness = witness
         self.decompose = decompose      # env -> (n0, n1): the loop runs over range(n0*n1); generic index = k0*n1 + k1
 
+    def generic_index(self, c, frame, n, label):
+        """fresh generic ordinal(s) of one iteration: -> (loop variables, value of the ordinal)"""
+        if self.decompose is not None:
+            # flattened double loop: every ordinal in [0, n0*n1) is k0*n1 + k1 for exactly one (k0,k1) in the box
+            # (mixed-radix representation, the one arithmetic fact taken on trust: TRUSTED lemma MIXED-RADIX)
+            n0, n1 = self.decompose(frame.env)
+            c.require(ops_cmp('==', n, ops_binop('*', n0, n1)), f'loop{frame.loop_ordinal}.trip_count_is_product', kind='loop')
+            k0, k1 = c.fresh_int('L3k'), c.fresh_int('L3k')
+            c.assume_raw(z3.And(k0 >= 0, k0 < zint(n0), k1 >= 0, k1 < zint(n1)))
+            c.nonneg_ids.update([k0.get_id(), k1.get_id()])
+            vars_ = [LoopVar(k0, n0, label + '.0'), LoopVar(k1, n1, label + '.1')]
+            k = ops_binop('+', ops_binop('*', SInt(k0), n1), SInt(k1))
+            c.ex.__dict__.setdefault('axioms', set()).add('LEMMA-MIXED-RADIX')
+        else:
+            kz = c.fresh_int('L3k')
+            c.assume_raw(z3.And(kz >= 0, kz < zint(n)))
+            c.nonneg_ids.add(kz.get_id())
+            vars_ = [LoopVar(kz, n, label)]
+            k = SInt(kz)
+        return vars_, k
+
     def apply_for(self, frame, s, it):
         from .symex import BreakSig, ContinueSig
         from .models import SymEnumerate
@@ -232,23 +266,7 @@ class IndependentWrites:
         if isinstance(it.step, int) and it.step == 1:
             n = ops_binop('-', it.stop, it.start)        # n > 0 on this path, so Max(stop-start, 0) == stop-start
         label = f'{frame.f.qualname}#{frame.loop_ordinal}'
-        if self.decompose is not None:
-            # flattened double loop: every ordinal in [0, n0*n1) is k0*n1 + k1 for exactly one (k0,k1) in the box
-            # (mixed-radix representation, the one arithmetic fact taken on trust: TRUSTED lemma MIXED-RADIX)
-            n0, n1 = self.decompose(frame.env)
-            c.require(ops_cmp('==', n, ops_binop('*', n0, n1)), f'loop{frame.loop_ordinal}.trip_count_is_product', kind='loop')
-            k0, k1 = c.fresh_int('L3k'), c.fresh_int('L3k')
-            c.assume_raw(z3.And(k0 >= 0, k0 < zint(n0), k1 >= 0, k1 < zint(n1)))
-            c.nonneg_ids.update([k0.get_id(), k1.get_id()])
-            vars_ = [LoopVar(k0, n0, label + '.0'), LoopVar(k1, n1, label + '.1')]
-            k = ops_binop('+', ops_binop('*', SInt(k0), n1), SInt(k1))
-            c.ex.__dict__.setdefault('axioms', set()).add('LEMMA-MIXED-RADIX')
-        else:
-            kz = c.fresh_int('L3k')
-            c.assume_raw(z3.And(kz >= 0, kz < zint(n)))
-            c.nonneg_ids.add(kz.get_id())
-            vars_ = [LoopVar(kz, n, label)]
-            k = SInt(kz)
+        vars_, k = self.generic_index(c, frame, n, label)
         c.counter += 1
         fam = Family(self, vars_, c.counter, dict(frame.env), frame.f.qualname)
         c.family.append(fam)
@@ -347,6 +365,27 @@ class Invariant:
         self.inv = inv
         self.havoc = tuple(havoc)
         self.fresh = fresh or {}
+
+    def generic_index(self, c, frame, n, label):
+        """fresh generic ordinal(s) of one iteration: -> (loop variables, value of the ordinal)"""
+        if self.decompose is not None:
+            # flattened double loop: every ordinal in [0, n0*n1) is k0*n1 + k1 for exactly one (k0,k1) in the box
+            # (mixed-radix representation, the one arithmetic fact taken on trust: TRUSTED lemma MIXED-RADIX)
+            n0, n1 = self.decompose(frame.env)
+            c.require(ops_cmp('==', n, ops_binop('*', n0, n1)), f'loop{frame.loop_ordinal}.trip_count_is_product', kind='loop')
+            k0, k1 = c.fresh_int('L3k'), c.fresh_int('L3k')
+            c.assume_raw(z3.And(k0 >= 0, k0 < zint(n0), k1 >= 0, k1 < zint(n1)))
+            c.nonneg_ids.update([k0.get_id(), k1.get_id()])
+            vars_ = [LoopVar(k0, n0, label + '.0'), LoopVar(k1, n1, label + '.1')]
+            k = ops_binop('+', ops_binop('*', SInt(k0), n1), SInt(k1))
+            c.ex.__dict__.setdefault('axioms', set()).add('LEMMA-MIXED-RADIX')
+        else:
+            kz = c.fresh_int('L3k')
+            c.assume_raw(z3.And(kz >= 0, kz < zint(n)))
+            c.nonneg_ids.add(kz.get_id())
+            vars_ = [LoopVar(kz, n, label)]
+            k = SInt(kz)
+        return vars_, k
 
     def apply_for(self, frame, s, it):
         from .symex import BreakSig, ContinueSig
